@@ -110,6 +110,23 @@ CHECKS = {
              'for 16-bit, not proved. One-step quantisation bounds for arbitrary in-range values are not yet a theorem (fixed points and exact '
              'inverses are). ' + TB,
         technique='Lean 4 proof (Mathlib Complex.arg, trig identities) + exhaustive 2^16 differential on the implementation'),
+    'C12': dict(
+        text='Lean 4 theorems over the reals, for every latitude, longitude, height and reference point: the ECF->NED and ECF->ENU '
+             'matrices exactly as geocoords.py builds them are orthogonal with determinant +1; ECF<->NED and ECF<->ENU conversions '
+             'invert each other in absolute and relative mode and preserve length; wgs_84_norm is a unit vector; with the constants as '
+             'the module derives them (a = 6378137, 1/f = 298.257223563) height-0 points satisfy x^2/a^2+y^2/a^2+z^2/b^2 = 1, a point '
+             'of height h is the surface point plus h times the ellipsoid normal, and that normal is the ENU up axis; ordering and '
+             'array-shape handling are permutation/map lemmas. Of the closed-form inverse only the longitude component and the '
+             'equatorial case are proved; its exactness in general is a named, unproved proposition, tied numerically: the same '
+             'definitions run at Float agree with sarpy, and sarpy\'s results are compared with a 50-digit evaluation of the WGS-84 '
+             'forward map on a seeded grid (poles, equator, antimeridian, z = 0, heights -1e4..1e8, both orderings, many shapes).',
+        design='DESIGN.md 3.7, 6/C12',
+        note='proved over R: rotations, round trips, unit normal, surface identity, height along the normal, ordering/shape. NOT proved: '
+             'exactness of the closed-form inverse (C12_inverse_exact is a definition), injectivity of the forward map in latitude; '
+             'accuracy figures (1e-6 m / 1e-9 deg) are floating point and hold by correspondence + high-precision oracle on the '
+             'sampled grid only. ' + TB,
+        technique='Lean 4 proof (Mathlib real trigonometry, ring/linear_combination) + Float-instantiated model correspondence + '
+                  '50-digit mpmath oracle in a side process'),
 }
 
 
